@@ -239,19 +239,30 @@ class Machine(object):
         mdl = self.model
         mdl.bound = 'f0.par'
         holder = {}
-
-        def fn():
-            holder['obj'] = self.ymod.write_ndarray_to_yanny(self.path('f0.par'), tabs, structnames=names,
-                                                             enums=self._enums(), hdr=hdr)
-        self._call(fn, 'ok')
-        self.obj = holder['obj']
-        disk = self.disk()
-        if 'f0.par' not in disk:
-            self.stop('write_new_created_nothing', 'write_ndarray_to_yanny returned but no file exists')
-        mdl.files['f0.par'] = disk['f0.par']
         start = self.desc.get('start', 'writer')
-        if start != 'writer':
-            self._reread(start == 'raw')
+        if start.startswith('external'):
+            # the file was produced by somebody else's tool; the object only reads it
+            text = M.render_external(self.desc['tables'], self.desc['hdr'], self.desc.get('style', 0))
+            with open(self.path('f0.par'), 'wb') as f:
+                f.write(text)
+            mdl.files['f0.par'] = text
+            self._reread(start.endswith('raw'))
+            self.probes['start_from_external_file'] += 1
+        else:
+            comments = self.desc.get('comments')
+
+            def fn():
+                holder['obj'] = self.ymod.write_ndarray_to_yanny(
+                    self.path('f0.par'), tabs, structnames=names, enums=self._enums(), hdr=hdr,
+                    comments=comments)
+            self._call(fn, 'ok')
+            self.obj = holder['obj']
+            disk = self.disk()
+            if 'f0.par' not in disk:
+                self.stop('write_new_created_nothing', 'write_ndarray_to_yanny returned but no file exists')
+            mdl.files['f0.par'] = disk['f0.par']
+            if start != 'writer':
+                self._reread(start == 'raw')
         self.check_all('init')
         self.trace.append(['init', start, self._filesig()])
 
@@ -272,9 +283,9 @@ class Machine(object):
         if op == 'append':
             outcome, extra = self._append(st)
         elif op == 'write_copy':
-            outcome = self._write(st['name'], explicit=True)
+            outcome = self._write(st['name'], explicit=True, comments=st.get('comments'))
         elif op == 'write_self':
-            outcome = self._write(mdl.bound, explicit=False)
+            outcome = self._write(mdl.bound, explicit=False, comments=st.get('comments'))
         elif op == 'reread':
             if mdl.bound in mdl.files:
                 self._reread(bool(st.get('raw')))
@@ -317,11 +328,14 @@ class Machine(object):
         self.abstract.append([op, outcome, bool(self.obj.raw)] + extra)
         self.trace.append([i, op, outcome, self._filesig()])
 
-    def _write(self, name, explicit):
+    def _write(self, name, explicit, comments=None):
         mdl = self.model
         target = self.path(name)
         exists = name in mdl.files
-        fn = (lambda: self.obj.write(target)) if explicit else (lambda: self.obj.write())
+        kw = {} if comments is None else {'comments': comments}
+        fn = (lambda: self.obj.write(target, **kw)) if explicit else (lambda: self.obj.write(**kw))
+        if comments is not None:
+            self.probes['write_with_custom_comments'] += 1
         if exists:
             out = self._call(fn, 'raise')
             self.probes['write_over_existing'] += 1
@@ -415,7 +429,9 @@ class Machine(object):
         for t, rows in added_rows:
             if len(t['rows']) == len(rows):
                 p['append_to_zero_row_table'] += 1
-            for c in t['columns']:
+            for ci, c in enumerate(t['columns']):
+                if c.get('var') and M.var_width(c, t['rows'], ci) > M.var_width(c, t['rows'][:-len(rows)], ci):
+                    p['append_widens_variable_length_char_column'] += 1
                 if c['kind'] == 'S' and c.get('len', 0):
                     p['append_string_array_column'] += 1
                 if c['kind'] == 'E':
